@@ -148,6 +148,8 @@ type Exec struct {
 	clock        *Term
 	timers       []timerRec
 	pools        map[*Value][]Value // sync.Pool contents
+	fmtDepth     int       // formatter model: nesting depth and symbolic pieces of the call in progress
+	fmtSyms      [][]*Term
 	topicCloseFails bool // pubsub model: Topic.Close reports outstanding subscriptions
 	seals        []*sealRec
 	hashFacts    []hashFact
